@@ -1711,4 +1711,18 @@ def _renaming_duplicates_counted(prog: Program, col: Collector, refs: Refs, cat:
                        + f", while values of classes {sorted(x.rsplit('.', 1)[-1] for x in renamed_classes)} are applied by renaming: t(a=Slice('k', ...), b=Slice('k', ...)) renames both "
                        "inputs to k, the second overwrites the first and a batch dim ends up in the output shape")
         col.check(ok_any, construct, "target names are counted over every class of value that is applied by renaming", why, f.loc(counters[0]))
+        # the set consulted by the clash test (`x.name not in S`: "that input is renamed away") must hold exactly the keys that ARE applied by
+        # renaming: a value that is materialised for another reason (a duplicated target) while its key stays in S makes a third
+        # renaming onto that key look safe
+        sets = {c_.comparators[0].id for c_ in ast.walk(f.node) if isinstance(c_, ast.Compare) and len(c_.ops) == 1 and isinstance(c_.ops[0], ast.NotIn)
+                and isinstance(c_.comparators[0], ast.Name) and isinstance(c_.left, ast.Attribute) and c_.left.attr == "name"}
+        for ie in [x for x in ast.walk(f.node) if isinstance(x, ast.IfExp) and isinstance(x.body, ast.Call) and isinstance(x.body.func, ast.Attribute) and x.body.func.attr == "materialize"]:
+            for S in sorted(sets):
+                ors = [b for b in ast.walk(ie.test) if isinstance(b, ast.BoolOp) and isinstance(b.op, ast.Or)]
+                stray = [d for b in ors for d in b.values if not any(isinstance(y, ast.Name) and y.id == S for y in ast.walk(d))
+                         and any(any(isinstance(y, ast.Name) and y.id == S for y in ast.walk(d2)) for d2 in b.values)]
+                col.check(not stray, f"{f.fq}::materialise iff not in {S}", f"a renaming value is materialised exactly when its key is not in `{S}`",
+                          f"a value is also materialised when `{norm(stray[0]) if stray else ''}` although its key stays in `{S}`, the set the clash test reads as 'renamed away': a "
+                          f"third renaming onto that key (x(i='a', j='a', k='i')) is then applied by renaming while `i` keeps its name - two inputs collapse; the condition belongs "
+                          f"into the definition of `{S}`", f.loc(ie))
     col.cur.analysed["renaming_eager_subs"] = n
